@@ -370,7 +370,7 @@ def fortranKind (decl : Str) : Option (Kind × Nat) :=
 mutual
 /-- all strings of an array constructor must have one length -/
 def strLens : Val → List Nat
-  | .leaf (.s v) => [v.length]
+  | .leaf (.s v) => [utf8Len v]          -- a default-kind character is one byte of the UTF-8 source
   | .leaf _ => []
   | .arr vs => strLensList vs
 def strLensList : List Val → List Nat
